@@ -116,7 +116,7 @@ impl ExpertNode {
         self.num_invalid_children.increment();
     }
     pub(crate) fn decr_invalid_children(&self) {
-        self.num_invalid_children.increment();
+        self.num_invalid_children.decrement();
     }
 
     pub(crate) fn make_stale(&self) -> MakeStale {
